@@ -31,6 +31,7 @@ type E2Spec struct {
 	RespPeers  int    `json:"resp_peers"`  // responses/commits only from the first RespPeers peers (0 = all)
 	PoolFirst  bool   `json:"pool_first"`  // a requested transaction may enter the pool before OnTransaction is called
 	NotifyFirst bool  `json:"notify_first"` // OnTransaction is called before GetTx can serve the transaction
+	ForeignTx  bool   `json:"foreign_tx"` // while a transaction request is outstanding the application may also hand over transactions nobody asked for
 	Once       bool   `json:"once"`       // every payload is delivered at most once (saturation strata: all orders of one fixed message set)
 	RecReq     bool   `json:"rec_req"`
 	Bundles    bool   `json:"bundles"`
@@ -182,6 +183,9 @@ func buildE2(w *World) *e2env {
 								fixed(fmt.Sprintf("h%d v%d response %c from %d", h, v, k, i), mk(dbft.PrepareResponseType, i, &prepResp{p.Hash()}))
 							}
 						case 'X':
+							if i == x {
+								continue // nobody can forge X's own payloads
+							}
 							fixed(fmt.Sprintf("h%d v%d response for unknown hash from %d", h, v, i), mk(dbft.PrepareResponseType, i, &prepResp{H(0xbad0)}))
 						case 'O':
 							if prim == x {
@@ -218,6 +222,9 @@ func buildE2(w *World) *e2env {
 								return mk(t, i, body(mkSig(kind, vals[i], bh)))
 							})
 						case 'G':
+							if i == x && !w.nodes[sp.X].kind.watch() {
+								continue // nobody can forge a validator's own payloads (a watch-only stand-by's twin may be Byzantine)
+							}
 							fixed(fmt.Sprintf("h%d v%d garbage %s from %d", h, v, label, i), mk(t, i, body(mkSig(kind, vals[i], H(0xdead)))))
 						case 'O':
 							if prim != x {
@@ -363,6 +370,13 @@ func (w *World) e2Enabled() []Event {
 			if sp.PoolFirst && !x.known[h] {
 				// the transaction reaches the application's pool (GetTx serves it) before the notification is delivered
 				evs = append(evs, Event{K: "txpool", N: x.id, P: h})
+			}
+		}
+	}
+	if m := x.m; sp.ForeignTx && m != nil && m.reqActive && m.height == x.d.BlockIndex {
+		for _, h := range []H{0x7777, 106} {
+			if !m.requested[h] {
+				evs = append(evs, Event{K: "tx", N: x.id, P: h})
 			}
 		}
 	}
